@@ -1,0 +1,19 @@
+//go:build verif
+
+// Contracts needed by C14 (governance handlers) on read-only validator-set queries.
+// ASSUMED (typed view of ValidatorStore.Iterate over the State prefix, like the get/set layer of verif_contracts.go);
+// added by the C14 worker because the governance handlers call them. Comment-only file, read by /verif/govc.
+
+package identity
+
+// every element is a record currently filed in the validator store (under its own address)
+// (a running chain always has at least one validator record: InitChain files them and Tendermint halts on an empty set)
+//@ assume func (*ValidatorStore).GetValidatorSet
+//@   modifies nothing
+//@   ensures err == nil ==> len(result0) > 0
+//@   ensures forall i int :: 0 <= i && i < len(result0) ==> vHasRec(vs)[str(result0[i].Address)] && result0[i] == vRec(vs)[str(result0[i].Address)]
+
+// the active list is a sub-list of the validator set
+//@ assume func (*ValidatorStore).GetActiveValidatorList
+//@   modifies nothing
+//@   ensures forall i int :: 0 <= i && i < len(result0) ==> vHasRec(vs)[str(result0[i].Address)] && result0[i] == vRec(vs)[str(result0[i].Address)]
